@@ -228,3 +228,124 @@ func vC16ToWalk(maxLen int) {
 
 func VerifC16_ToWalkQuick()    { vC16ToWalk(4) }
 func VerifC16_ToWalkThorough() { vC16ToWalk(6) }
+
+// ---- wide shapes: long names, deep directories, long lists ---------------------
+// Names are drawn from an alphabet of forms (every special form of the
+// property's quantifier, including names made of dots only and names of eight
+// bytes); lists are built from a core alphabet with at most one element of the
+// full alphabet at an arbitrary position; directories are up to three deep.
+var vC16Core = []string{"..", "a", "abcdefgh"}
+var vC16Full = []string{"", ".", "..", "...", "....", "a", "ab", "a.", ".a", "..a", "a..", ". .", "a/b", "a\\b", "/", "\\", "abcdefgh", ".hidden", "x\x00y"}
+var vC16Dirs = []struct {
+	dir   string
+	elems []string
+}{
+	{"/", nil},
+	{"/d1/dd2", []string{"d1", "dd2"}},
+	{"/d1/dd2/d.3", []string{"d1", "dd2", "d.3"}},
+	{"/.../..x/long-name", []string{"...", "..x", "long-name"}},
+}
+
+func ndWideNames(maxN int) []string {
+	n := ndChoice("nnames", maxN+1)
+	names := make([]string, n)
+	for i := range names {
+		names[i] = vC16Core[ndChoice("core", len(vC16Core))]
+	}
+	if n > 0 && ndChoice("odd", 2) == 1 {
+		names[ndChoice("oddpos", n)] = vC16Full[ndChoice("oddform", len(vC16Full))]
+	}
+	return names
+}
+
+func vC16WalkWide(maxN int) {
+	d := vC16Dirs[ndChoice("dir", len(vC16Dirs))]
+	names := ndWideNames(maxN)
+	want := vRefValid(names)
+	vAssert(ValidPath(names) == want, "C16: ValidPath accepts exactly the safe lists and counts the leading ..")
+	res, err := WalkName(d.dir, names...)
+	st, ok := vRefResolve(d.elems, names)
+	if want < 0 || !ok {
+		vAssert(err != nil, "C16: WalkName rejects unsafe lists and climbs above root")
+	} else {
+		vAssert(err == nil, "C16: WalkName accepts safe lists that stay below root")
+		vAssert(res == vJoinAbs(st), "C16: WalkName equals stepwise resolution (canonical absolute path)")
+	}
+	vReach("c16.walk.wide")
+}
+
+func vC16NormalizeWide(maxN int) {
+	names := ndWideNames(maxN)
+	got, bsp := NormalizePath(names)
+	want, wbsp := vRefNormalize(names)
+	vAssert(bsp == wbsp, "C16: NormalizePath returns -1 exactly on separators, else the leading .. count")
+	if wbsp >= 0 {
+		vAssert(vStrsEq(got, want), "C16: NormalizePath agrees with stepwise resolution")
+		again, bsp2 := NormalizePath(got)
+		vAssert(bsp2 == bsp && vStrsEq(again, got), "C16: NormalizePath idempotent")
+		vAssert(ValidPath(got) == bsp, "C16: normalised list is valid")
+	}
+	// ToWalk of the joined list agrees with Normalize (relative and absolute)
+	joinable := true
+	for _, s := range names {
+		if vHasSep(s) || len(s) == 0 {
+			joinable = false
+		}
+	}
+	if joinable && len(names) > 0 {
+		p := ""
+		for i, s := range names {
+			if i > 0 {
+				p += "/"
+			}
+			p += s
+		}
+		if ndChoice("abs", 2) == 1 {
+			p = "/" + p
+		}
+		isAbs, steps, err := ToWalk(nil, p)
+		vAssert(isAbs == (p[0] == '/'), "C16: ToWalk absolute-path rule")
+		if isAbs && wbsp != 0 {
+			vAssert(err != nil, "C16: ToWalk rejects backslashes and absolute paths climbing above root")
+		} else {
+			vAssert(err == nil, "C16: ToWalk accepts")
+			vAssert(vStrsEq(steps, want), "C16: ToWalk = Normalize . Split")
+		}
+	}
+	vReach("c16.norm.wide")
+}
+
+func vC16CreateWide() {
+	d := vC16Dirs[ndChoice("dir", len(vC16Dirs))]
+	name := vC16Full[ndChoice("form", len(vC16Full))]
+	res, err := CreateName(d.dir, name)
+	bad := len(name) == 0 || vHasSep(name) || name == "." || name == ".."
+	if bad {
+		vAssert(err != nil, "C16: CreateName rejects empty, '.', '..' and names with separators")
+	} else {
+		vAssert(err == nil, "C16: CreateName accepts ordinary names")
+		vAssert(res == vJoinAbs(append(append([]string(nil), d.elems...), name)), "C16: CreateName result is dir/name, canonical")
+	}
+	vReach("c16.create.wide")
+}
+
+func VerifC16_WideQuick() {
+	switch ndChoice("fn", 3) {
+	case 0:
+		vC16WalkWide(4)
+	case 1:
+		vC16NormalizeWide(4)
+	case 2:
+		vC16CreateWide()
+	}
+}
+func VerifC16_WideThorough() {
+	switch ndChoice("fn", 3) {
+	case 0:
+		vC16WalkWide(6)
+	case 1:
+		vC16NormalizeWide(6)
+	case 2:
+		vC16CreateWide()
+	}
+}
